@@ -26,9 +26,36 @@ def K(id, file, name, tiers=('quick', 'thorough'), tq=600, tt=3600, **kw):
 
 PROPS = {}
 
+def cfg_bits(cfg):
+    w, s, p = cfg.split('_')[:3]
+    return int(w[1:]), int(s[1:]), int(p[1:])
+
+def range_fixes(cfg, tier, seed):
+    """concrete values for the `range` argument of range-coder kernels at wide configurations (keeps every
+    product scale*x linear for the int-blasting solvers); every other input stays symbolic.  Small
+    configurations get None (= fully symbolic) as well."""
+    import random
+    wb, sb, p = cfg_bits(cfg)
+    lo = 1 << (sb - wb)
+    mx = (1 << sb) - 1
+    vals = [lo, lo + 1, mx, (1 << (sb - 1)) + 1, 3 * lo - 1, (lo << 1) | 0x5a5]
+    rng = random.Random(seed * 1000003 + sb * 131 + wb)
+    vals += [rng.randrange(lo, mx + 1) for _ in range(2 if tier == 'quick' else 10)]
+    if tier == 'quick': vals = vals[:4] + vals[6:]
+    out = [dict(range=v) for v in vals]
+    return ([None] if sb <= 16 else []) + out
+
 PROPS['C01'] = dict(
     obligations=[
         L('c01_step', 'k_c01_step_{cfg}', QUICK, ALL),
+        K('c01_ctor_u8_u16', 'ans', 'ctor_u8_u16'), K('c01_ctor_u16_u32', 'ans', 'ctor_u16_u32'), K('c01_ctor_u32_u64', 'ans', 'ctor_u32_u64'),
+        K('c01_ctor_u8_u32', 'ans', 'ctor_u8_u32', tiers=('thorough',)),
+        K('c01_export_u8_u16', 'ans', 'export_u8_u16'), K('c01_export_u16_u32', 'ans', 'export_u16_u32'), K('c01_export_u32_u64', 'ans', 'export_u32_u64'),
+        K('c01_export_u8_u32', 'ans', 'export_u8_u32', tiers=('thorough',)),
+        K('c01_view_u8_u16', 'ans', 'view_u8_u16'), K('c01_view_u16_u32', 'ans', 'view_u16_u32'), K('c01_view_u32_u64', 'ans', 'view_u32_u64', tiers=('thorough',)),
+        K('c01_view_u8_u32', 'ans', 'view_u8_u32', tiers=('thorough',)),
+        K('c01_reimport_u8_u16', 'ans', 'reimport_u8_u16'), K('c01_reimport_u16_u32', 'ans', 'reimport_u16_u32'), K('c01_reimport_u32_u64', 'ans', 'reimport_u32_u64'),
+        K('c01_reimport_u8_u32', 'ans', 'reimport_u8_u32', tiers=('thorough',)),
     ],
     bounds='one encode->decode step from ANY raw state satisfying the representation invariant (bulk [] or [w0]; deeper words are never touched), '
            'any (cum,p) a well-formed model can answer (Cuts model, 3 symbols), at each listed (Word,State,Probability,PRECISION); '
@@ -36,6 +63,68 @@ PROPS['C01'] = dict(
     outside='Word/State of usize/u128; back ends other than Vec/array stack (their contracts: C17); histories are covered only through the '
             'inductive step + invariant argument',
     assumptions=['representation invariant Inv_ans assumed on the symbolic pre-state and proved preserved by every step'],
+)
+
+PROPS['C04'] = dict(
+    obligations=[
+        L('c04_step', 'k_c04_step_{cfg}', QUICK, ALL),
+        K('c04_binary_u8_u16', 'ans', 'binary_u8_u16'), K('c04_binary_u16_u32', 'ans', 'binary_u16_u32'),
+        K('c04_binary_u32_u64', 'ans', 'binary_u32_u64'), K('c04_binary_u8_u32', 'ans', 'binary_u8_u32', tiers=('thorough',)),
+        K('c04_guards_u8_u16', 'ans', 'guards_u8_u16'), K('c04_guards_u16_u32', 'ans', 'guards_u16_u32'),
+        K('c04_guards_u32_u64', 'ans', 'guards_u32_u64', tiers=('thorough',)),
+    ],
+    bounds='one decode->encode step from ANY raw state satisfying the invariant (inductive: k steps follow), any (cum,p); raw-binary accessors on every word pattern of '
+           'length <= StateBits/WordBits+1 (zero words in every position) over the real Vec back end',
+    outside='Word/State of usize/u128; data longer than StateBits/WordBits+1 words for the accessor identities (words below the state window are never touched)',
+    assumptions=['Inv_ans assumed on symbolic pre-states and proved preserved'],
+)
+
+RS = ['u8_u16_p4', 'u8_u16_p8']
+RQ = ['u8_u16_p4', 'u16_u32_p12', 'u32_u64_p24']
+RALL = ['u8_u16_p4', 'u8_u16_p8', 'u8_u32_p8', 'u16_u32_p12', 'u16_u32_p16', 'u16_u64_p16', 'u32_u64_p24', 'u32_u64_p32']
+INV_SOFT = [20, 21, 22, 23]
+
+PROPS['C02'] = dict(
+    obligations=[
+        L('c02_rt_k1', 'k_c02_rt_k1_{cfg}', RQ, RALL, fixes=range_fixes),
+        L('c02_rt_k2', 'k_c02_rt_k2_{cfg}', ['u8_u16_p4'], ['u8_u16_p4', 'u8_u16_p8', 'u8_u32_p8', 'u16_u32_p12', 'u32_u64_p24'], cap=dict(quick=90, thorough=600)),
+        L('c02_rt_k3', 'k_c02_rt_k3_{cfg}', [], ['u8_u16_p4', 'u8_u16_p8'], cap=dict(quick=90, thorough=900)),
+        L('c02_fresh_k2', 'k_c02_fresh_k2_{cfg}', ['u8_u16_p4'], ['u8_u16_p4', 'u8_u16_p8', 'u8_u32_p8', 'u16_u32_p12', 'u32_u64_p24'], cap=dict(quick=90, thorough=600)),
+        L('c02_fresh_k3', 'k_c02_fresh_k3_{cfg}', [], ['u8_u16_p8'], cap=dict(quick=90, thorough=900)),
+        L('c02_step_inv', 'k_c02_step_inv_{cfg}', RQ, RALL, soft=INV_SOFT, fixes=range_fixes),
+        K('c02_rt_k1_u8_u16_p4_cbmc', 'kk', 'c02_rt_k1_u8_u16_p4', tq=600),
+        K('c02_rt_k1_u8_u16_p8_cbmc', 'kk', 'c02_rt_k1_u8_u16_p8', tq=900),
+        K('c02_rt_k2_u8_u16_p8_cbmc', 'kk', 'c02_rt_k2_u8_u16_p8', tiers=('thorough',), tt=7200),
+    ],
+    bounds='k <= 3 symbols per cut; cut = arbitrary raw encoder state (lower, range) in the Normal situation with an empty sink + decoder started from the same state '
+           '(k=1 at every listed width; k=2,3 at the small widths), and the fresh encoder (k <= 3); any (cum,p) via the Cuts model. At StateBits >= 32 the `range` '
+           'argument of one-step obligations is drawn from a stated list of concrete values (boundary values + VERIF_SEED-seeded ones), all other inputs symbolic',
+    outside='inverted runs longer than 3 words; k >= 2 with fully symbolic state at StateBits >= 32 (attempted in the thorough tier, reported UNDECIDED when the solvers do not finish); '
+            'Word/State of usize/u128',
+    assumptions=['Inv_renc on symbolic pre-states (range >= 2^(SB-WB), Normal => lower+range does not wrap, Inverted(n,w) => wraps, n>=1, w != MAX)'],
+)
+
+PROPS['C10'] = dict(
+    obligations=[
+        L('c10_ans', 'k_c10_ans_{cfg}', ['u8_u16_p4', 'u8_u16_p8', 'u16_u32_p12', 'u32_u64_p24'], ['u8_u16_p4', 'u8_u16_p8', 'u8_u32_p8', 'u16_u32_p12', 'u16_u32_p16', 'u16_u64_p16', 'u32_u64_p24', 'u32_u64_p32']),
+        L('c10_range', 'k_c10_range_{cfg}', RQ, ['u8_u16_p4', 'u8_u16_p8', 'u8_u32_p8', 'u16_u32_p12', 'u16_u32_p16', 'u32_u64_p24', 'u32_u64_p32']),
+        L('c10_range_step', 'k_c10_range_step_{cfg}', RQ, ['u8_u16_p4', 'u8_u16_p8', 'u8_u32_p8', 'u16_u32_p12', 'u16_u32_p16', 'u32_u64_p24', 'u32_u64_p32'], soft=INV_SOFT, fixes=range_fixes),
+    ],
+    bounds='ANS: two decodes from ANY raw parts (invariant not assumed); range decoder: two decodes over an arbitrary word array of any length <= StateBits/WordBits+2, and one decode '
+           'from any raw state accepted by from_raw_parts; chain coder: one decode from any head/data; no panic, overflow, unreachable or out-of-object access on any path',
+    outside='lookup-table and lazily quantised models inside the coder step (their own totality is checked separately by Kani harnesses); Word/State of usize/u128',
+    assumptions=['models answer like a well-formed 3-symbol model with arbitrary cut points (Cuts)'],
+)
+
+PROPS['C11'] = dict(
+    obligations=[
+        L('c11_suffix_k1', 'k_c11_suffix_k1_{cfg}', RQ, ['u8_u16_p4', 'u8_u16_p8', 'u16_u32_p12', 'u16_u32_p16', 'u32_u64_p24', 'u32_u64_p32'], fixes=range_fixes),
+        L('c11_suffix_k2', 'k_c11_suffix_k2_{cfg}', ['u8_u16_p4'], ['u8_u16_p4', 'u8_u16_p8', 'u16_u32_p12', 'u32_u64_p24'], cap=dict(quick=90, thorough=600)),
+        K('c11_suffix_k1_u8_u16_p8_cbmc', 'kk', 'c11_suffix_k1_u8_u16_p8', tq=900),
+    ],
+    bounds='as C02 cut obligations, with StateBits/WordBits + k arbitrary suffix words appended after the sealed output; StateBits = 2*WordBits configurations (all presets)',
+    outside='StateBits > 2*WordBits: known finding (see known_findings.json), the obligation is not claimed there; k >= 3',
+    assumptions=['as C02'],
 )
 
 PROPS['C17'] = dict(
